@@ -1,0 +1,48 @@
+//go:build verif
+
+// SPDX-License-Identifier: Apache-2.0
+// Copyright Authors of Cilium
+
+package statedb
+
+import (
+	"time"
+
+	"github.com/cilium/statedb/internal"
+)
+
+// VerifHook, when set (by the verification harness in /verif, before any
+// goroutine uses the database), is called at the named points of WriteTxn,
+// Commit, Abort, table registration and the graveyard worker with the name of
+// the acting DB handle ("gc" for the graveyard worker, the table name for
+// table registration). It may block to force a particular interleaving.
+var VerifHook func(point string, who string)
+
+func verifPause(point string, who string) {
+	if h := VerifHook; h != nil {
+		h(point, who)
+	}
+}
+
+// VerifSetLockHook installs a hook called by SortableMutexes before ("locking")
+// and after ("locked") acquiring and after releasing ("unlocked") each table lock.
+func VerifSetLockHook(f func(event string, seq uint64)) {
+	internal.VerifLockHook = f
+}
+
+// VerifSetGCRateLimitInterval sets the graveyard worker's rate limit interval.
+// Must be called before Start().
+func VerifSetGCRateLimitInterval(db *DB, interval time.Duration) {
+	db.setGCRateLimitInterval(interval)
+}
+
+// VerifGraveyardLen returns the number of objects in the graveyard of a table
+// in the given snapshot.
+func VerifGraveyardLen(txn ReadTxn, table TableMeta) int {
+	return txn.getTableEntry(table).numDeletedObjects()
+}
+
+// VerifTableSeq returns the sequence number of the table's lock.
+func VerifTableSeq(table TableMeta) uint64 {
+	return table.sortableMutex().Seq()
+}
